@@ -59,6 +59,7 @@ def default_desc():
 
 
 def make_grid(rockit, g):
+    import_rockit()
     from rockit import UniformGrid, GeometricGrid, FreeGrid
     from rockit.sampling_method import FunctionGrid
     kw = {}
@@ -93,6 +94,7 @@ def make_grid(rockit, g):
 
 
 def make_method(rockit, m):
+    rockit = import_rockit()
     grid = make_grid(rockit, m['grid'])
     kind = m['kind']
     if kind == 'ms':
@@ -315,6 +317,8 @@ def build(desc, transcribe=True, solver=True, extra_phys=False):
 
         b.method = make_method(rockit, desc['method'])
         ocp.method(b.method)
+        for g in desc.get('initial_list', []):
+            apply_guess(b, g)
         if desc['method']['grid']['kind'] in ('density_poly', 'dense_edges'):
             # the normalised vector is data for the model: read it from the grid object rockit will use
             desc['method']['grid']['nz_runtime'] = [float(v) for v in ocp._method.time_grid.normalized(desc['method']['N'])]
@@ -324,6 +328,42 @@ def build(desc, transcribe=True, solver=True, extra_phys=False):
             ocp._transcribed  # triggers transcription
             finish(b, extra_phys)
     return b
+
+
+def guess_target(b, kind, idx):
+    if kind == 'x':
+        return b.states[idx]
+    if kind == 'u':
+        return b.controls[idx]
+    if kind == 'z':
+        return b.algs[idx]
+    if kind == 'v':
+        return b.vars[''][idx]
+    if kind == 'vc':
+        return b.vars['control'][idx]
+    if kind == 'vcp':
+        return b.vars['control+'][idx]
+    if kind == 'T':
+        return b.ocp.T
+    if kind == 't0':
+        return b.ocp.t0
+    raise KeyError(kind)
+
+
+def apply_guess(b, g):
+    """g = (kind, index, ('num', rows) | ('expr', [expr per row]))"""
+    kind, idx, (form, val) = g
+    tgt = guess_target(b, kind, idx)
+    if form == 'num':
+        v = ca.DM(val)
+    elif form == 'np':
+        import numpy as np
+        v = np.array(val)
+        if v.shape[0] == 1 and tgt.is_scalar():
+            v = v.flatten()
+    else:
+        v = ca.vertcat(*[E.to_casadi(e, b.sym_base) for e in val])
+    b.ocp.set_initial(tgt, v)
 
 
 def finish(b, extra_phys=False):
